@@ -35,6 +35,10 @@ def gen_system(R, nmax):
         lam = [round_sig(v if mode == "pos" else -v if mode == "neg" else v * R.choice([1, -1]))
                for v in mags]
         A = {"gen": "herm", "n": n, "lam": lam, "seed": s}
+        if n >= 2 and mode == "mixed" and R.random() < 0.5:
+            # Hermitian indefinite with a tiny or zero leading diagonal entry: symmetric elimination
+            # WITHOUT pivoting is unstable here, with pivoting it is harmless
+            A = {"gen": "set00", "of": A, "v": R.choice([1e-9, 1e-12, 0.0, 1e-6])}
     elif fam == "unitary":
         A = {"gen": "unitary", "n": n, "seed": s}
     elif fam == "cI":
@@ -180,8 +184,10 @@ def gen_trace(seed, world, tier, mode=None, chunk=None):
                 sysd["A"] = dict(sysd["A"], m=nb, n=nb,
                                  sigma=[round_sig(v) for v in logspace_sigma(R, nb, 10 ** R.choice([0, 1, 2, 3]))])
             elif sysd["family"] == "herm":
-                sysd["A"] = dict(sysd["A"], n=nb, lam=[round_sig(v * R.choice([1, -1]))
-                                                         for v in logspace_sigma(R, nb, 10 ** R.choice([0, 1, 2]))])
+                wrapped = sysd["A"].get("gen") == "set00"
+                inner = dict(sysd["A"]["of"] if wrapped else sysd["A"], n=nb,
+                             lam=[round_sig(v * R.choice([1, -1])) for v in logspace_sigma(R, nb, 10 ** R.choice([0, 1, 2]))])
+                sysd["A"] = dict(sysd["A"], of=inner) if wrapped else inner
             else:
                 sysd["A"] = dict(sysd["A"], n=nb)
             sysd["b"] = {"gen": "gauss", "m": nb, "n": 1, "seed": R.randrange(10 ** 6)}
